@@ -1092,7 +1092,7 @@ fn gen_invalid_origin(t: &mut Tape) -> WirePdu {
 
 /// Header corruptions of one encoded PDU: every single-bit flip plus targeted
 /// field rewrites. `big` admits lengths that make the reader allocate GiBs.
-fn corruptions(enc: &[u8]) -> Vec<(String, Vec<u8>)> {
+pub(crate) fn corruptions(enc: &[u8]) -> Vec<(String, Vec<u8>)> {
     let mut out = Vec::new();
     for bit in 0..64usize {
         let mut c = enc.to_vec();
@@ -1639,6 +1639,8 @@ impl C07 {
             offset += enc.len();
         }
         let _ = Frag::whole();
+        // Client level: the same faults against Client::step() reading a whole reply.
+        crate::c07c::client_cases(ctx, &seq, counters, out)?;
         Ok(())
     }
 }
